@@ -7,6 +7,10 @@
 3. Setters: every set_* of every HTTP client (nnas, nasc, hpp, dauth, aauth, baas, dragons, five, sun, atumn)
    with two values -> captured request before/after, compared with the models; every public call honours the
    configured host, context and request callback; documented classes can be constructed.
+4. Boundary values (harness/api_boundary.py): every setter x the boundary values of each parameter's type (0, "", b"", None
+   where documented, largest value of the field width and the first beyond) x every public call: the request carries the value
+   in the documented place (table = NnasSet.fields / NascSet.fields of the Lean model, proved for all values), has the fields it
+   has for ordinary values, is not refused; sequences on one object (ordinary value, call, boundary value, call).
 """
 import importlib, inspect, json, logging, os, re
 import anyio
@@ -707,6 +711,10 @@ def run(ctx):
                 "objects; setters: every set_* of the ten HTTP clients x two values x public calls, both before the first call and after a "
                 "first call on the same object (same effect required); several Settings objects created / mutated / copied / loaded / reset in "
                 "mixed order inside one fresh interpreter per scenario (fixed + seeded random), against an independent reference and the model; "
+                "boundary values: every set_* of nnas / nasc / hpp and set_host(s) / set_power_state / set_platform_region / set_context of the seven Switch "
+                "clients (and the device id of their constructors) with each parameter in turn at 0, '', b'', None, 2^w-1, 2^w (plus seeded combinations) x every "
+                "public call (11 nnas call shapes, 2 nasc, hpp.request, the Switch calls at three system versions): carried in the documented place exactly once, "
+                "same fields as for ordinary values, accepted; on one object: ordinary value, call, boundary value, call; boundary value then another setter; "
                 "behaviour: two or more values of prudp.resend_timeout / resend_limit / ping_timeout / fragment_size / max_substream_id measured on real endpoints in "
                 "virtual time (silent peer, link dying mid-session, idle connection, fragmentation, substreams), each session replayed through the Lean L1 model. "
                 "A case is non-trivial when it "
@@ -735,6 +743,8 @@ def run(ctx):
     tdata = st.extract(vf.REPO)
     switch_setter_checks(ctx, mods, tdata, None)
     diffs += [("legacy",) + d[:3] for d in legacy_checks(ctx, drv)]
+    import api_boundary
+    diffs += api_boundary.run(ctx, drv, mods, ctx.driver("C18"), st.driver_lines(tdata))
     construct_checks(ctx)
     import api_behaviour
     api_behaviour.run(ctx, ctx.driver("C02"))
